@@ -11,6 +11,11 @@ topics), explicit peers, the set of topics the node is subscribed to (= keys of 
 implementation just before the op.  `rand` sampling is an oracle argument read off the
 implementation's result and validated (`choice ⊆ pool ∧ |choice| = min need |pool|`).
 
+Send queues: only the occupancy of each peer's bounded non-priority queue is modelled (`qlen`,
+capacity `cfg.cap` = `connection_handler_queue_len`). The harness is the receiving side: it empties a
+peer's queue after every op unless the peer is `held` (ops `hold` / `release`); gossip emission is
+switched off in the harness config, so `RpcOut::Publish` is the only non-priority traffic.
+
 `publishG true` is the code as repaired (`fanout.entry(t).or_default().extend(new_peers)`),
 `publishG false` the code before (`fanout.insert(t, new_peers)`, which replaces the set).
 -/
@@ -29,6 +34,8 @@ structure Cfg where
   ttl : Nat
   /-- `flood_publish` -/
   flood : Bool
+  /-- `connection_handler_queue_len`: capacity of a peer's non-priority send queue -/
+  cap : Nat
 deriving Repr
 
 structure State where
@@ -42,9 +49,14 @@ structure State where
   fanout : Nat → Option (List Nat)
   /-- `fanout_last_pub` -/
   lastPub : Nat → Option Nat
+  /-- occupancy of each peer's non-priority send queue -/
+  qlen : Nat → Nat
+  /-- peers whose queue the harness is not emptying at the moment -/
+  held : List Nat
 
 def init (c : Cfg) : State :=
-  { cfg := c, peers := [], explicit := [], subscribed := [], fanout := fun _ => none, lastPub := fun _ => none }
+  { cfg := c, peers := [], explicit := [], subscribed := [], fanout := fun _ => none, lastPub := fun _ => none,
+    qlen := fun _ => 0, held := [] }
 
 def setF {α : Type} (f : Nat → Option α) (k : Nat) (v : Option α) : Nat → Option α :=
   fun k' => if k' = k then v else f k'
@@ -63,7 +75,8 @@ def insAll (l : List Nat) (xs : List Nat) : List Nat := xs.foldl ins l
 /-- `handle_established_*` + `ConnectionEstablished` + `HandlerEvent::PeerKind` for a first connection -/
 def connect (s : State) (p : Nat) (gossip : Bool) : State :=
   if connected s p then s
-  else { s with peers := s.peers ++ [{ id := p, gossip := gossip, topics := [] }] }
+  else { s with peers := s.peers ++ [{ id := p, gossip := gossip, topics := [] }]
+                qlen := fun q => if q = p then 0 else s.qlen q }
 
 /-- `on_connection_closed` with `remaining_established = 0`: the peer leaves the fanout of
 every topic *it is subscribed to*, then `connected_peers` -/
@@ -73,7 +86,8 @@ def disconnect (s : State) (p : Nat) : State :=
   | some pd =>
     { s with
       fanout := fun t => if pd.topics.contains t then (s.fanout t).map (fun l => l.filter (· != p)) else s.fanout t
-      peers := s.peers.filter (fun x => x.id != p) }
+      peers := s.peers.filter (fun x => x.id != p)
+      qlen := fun q => if q = p then 0 else s.qlen q }
 
 /-- the default `filter_incoming_subscriptions`: per topic, a later entry with the other action
 cancels the kept one, an equal action is dropped -/
@@ -134,8 +148,8 @@ def validChoice (choice pool : List Nat) (need : Nat) : Bool :=
 inductive PubOut where
   /-- `flood_publish` or subscribed topic: recipients not predicted by this model -/
   | other
-  /-- fanout branch: the recipient set -/
-  | rcpt (r : List Nat)
+  /-- fanout branch: the recipient set and the recipients whose queue accepted the message -/
+  | sent (rc delivered : List Nat)
   /-- the oracle is not an admissible sample -/
   | badOracle
 deriving Repr, DecidableEq
@@ -146,29 +160,60 @@ def pool (s : State) (t : Nat) (low : List Nat) : List Nat :=
   let fp := ((s.fanout t).getD []).filter (c.contains ·)
   c.filter (fun p => !(insAll (baseRecipients s c) fp).contains p)
 
-/-- `filter_publish_candidates` (fanout branch) + the bookkeeping of `publish`; `fixed` selects
-the repaired fanout update. `rcpt` = the recipient set the implementation produced (oracle). -/
-def publishG (fixed : Bool) (s : State) (t now : Nat) (low rcpt : List Nat) : State × PubOut :=
-  if s.cfg.flood then (s, .other)
-  else if s.subscribed.contains t then (s, .other)
+/-- `filter_publish_candidates` (fanout branch): the state with `fanout` / `fanout_last_pub` updated
+and the recipient set; `none` = the oracle is not an admissible sample. `fixed` selects the repaired
+fanout update. `fanAfter` = the topic's fanout entry the implementation ended with (oracle): the
+sampled peers are the ones that were not in the entry before. -/
+def pubFanout (fixed : Bool) (s : State) (t now : Nat) (low : List Nat) (fanAfter : Option (List Nat)) :
+    Option (State × List Nat) :=
+  let c := candidates s t low
+  let fp := ((s.fanout t).getD []).filter (c.contains ·)
+  let needed := s.cfg.meshN - fp.length
+  let rec1 := insAll (baseRecipients s c) fp
+  if needed > 0 then
+    let pl := c.filter (fun p => !rec1.contains p)
+    let new := (fanAfter.getD []).filter (fun p => !((s.fanout t).getD []).contains p)
+    if validChoice new pl needed then
+      let fan' := if fixed then insAll ((s.fanout t).getD []) new else insAll [] new
+      some ({ s with fanout := setF s.fanout t (some fan'), lastPub := setF s.lastPub t (some now) }, insAll rec1 new)
+    else none
   else
-    let c := candidates s t low
-    let fp := ((s.fanout t).getD []).filter (c.contains ·)
-    let needed := s.cfg.meshN - fp.length
-    let rec1 := insAll (baseRecipients s c) fp
-    if needed > 0 then
-      let pl := c.filter (fun p => !rec1.contains p)
-      let new := rcpt.filter (fun p => !rec1.contains p)
-      if validChoice new pl needed then
-        let fan' := if fixed then insAll ((s.fanout t).getD []) new else insAll [] new
-        ({ s with fanout := setF s.fanout t (some fan'), lastPub := setF s.lastPub t (some now) },
-         .rcpt (insAll rec1 new))
-      else (s, .badOracle)
-    else
-      ({ s with lastPub := setF s.lastPub t (some now) }, .rcpt rec1)
+    some ({ s with lastPub := setF s.lastPub t (some now) }, rec1)
+
+/-- the send loop of `publish`: `send_message` succeeds while the peer's queue has room -/
+def sendLoop (cap : Nat) : List Nat → (Nat → Nat) → List Nat → (Nat → Nat) × List Nat
+  | [], q, d => (q, d)
+  | r :: rest, q, d =>
+    if q r < cap then sendLoop cap rest (fun p => if p = r then q r + 1 else q p) (d ++ [r])
+    else sendLoop cap rest q d
+
+/-- the harness empties the queues of the peers it is not holding -/
+def settle (s : State) : State := { s with qlen := fun p => if s.held.contains p then s.qlen p else 0 }
+
+/-- the rest of `publish` after `filter_publish_candidates`: nothing is sent when there is no
+recipient (`NoPeersSubscribedToTopic`); otherwise the send loop, which touches the queues only -/
+def pubSend (s1 : State) (rc : List Nat) : State × PubOut :=
+  if rc.isEmpty then (s1, .sent [] [])
+  else
+    let r := sendLoop s1.cfg.cap rc s1.qlen []
+    (settle { s1 with qlen := r.1 }, .sent rc r.2)
+
+/-- `publish` for a topic the node may or may not be subscribed to -/
+def publishG (fixed : Bool) (s : State) (t now : Nat) (low : List Nat) (fanAfter : Option (List Nat)) :
+    State × PubOut :=
+  if s.cfg.flood then ({ s with qlen := fun _ => 0 }, .other)
+  else if s.subscribed.contains t then ({ s with qlen := fun _ => 0 }, .other)
+  else
+    match pubFanout fixed s t now low fanAfter with
+    | some (s1, rc) => pubSend s1 rc
+    | none => (s, .badOracle)
 
 def publish := publishG true
 def publishBuggy := publishG false
+
+/-- `publish`'s result: `Ok`, `NoPeersSubscribedToTopic`, `AllQueuesFull(n)` -/
+def resultOf (rc delivered : List Nat) : String :=
+  if rc.isEmpty then "nopeers" else if delivered.isEmpty then "full:" ++ toString rc.length else "ok"
 
 /-! ## heartbeat (fanout part) -/
 
@@ -230,8 +275,12 @@ inductive Op where
   | subs (p : Nat) (l : List (Bool × Nat))
   | subscribe (t : Nat)
   | unsubscribe (t : Nat)
-  | publish (t now : Nat) (low rcpt : List Nat)
+  | publish (t now : Nat) (low : List Nat) (fanAfter : Option (List Nat))
   | heartbeat (now : Nat) (low : List Nat) (post : Nat → List Nat)
+  /-- the harness stops emptying `p`'s queue -/
+  | hold (p : Nat)
+  /-- the harness empties `p`'s queue and resumes emptying it after every op -/
+  | release (p : Nat)
 
 /-- the topic universe of the driver (heartbeat iterates the fanout entries among these) -/
 def topicUniverse : List Nat := [0, 1, 2, 3]
@@ -243,21 +292,25 @@ def step (s : State) : Op → State
   | .subs p l => recvSubs s p l
   | .subscribe t => subscribe s t
   | .unsubscribe t => unsubscribe s t
-  | .publish t now low rcpt => (publish s t now low rcpt).1
+  | .publish t now low fa => (publish s t now low fa).1
   | .heartbeat now low post => (heartbeat s now low topicUniverse post).getD s
+  | .hold p => { s with held := ins s.held p }
+  | .release p => { s with held := s.held.filter (· != p), qlen := fun q => if q = p then 0 else s.qlen q }
 
 /-! ## executable Spec — the property evaluated on the IMPLEMENTATION's fanout and recipients -/
 
 def subset (a b : List Nat) : Bool := a.all (b.contains ·)
 
 /-- Publish to a topic the node is not subscribed to (no `flood_publish`), candidate set `c`:
-`pre`/`post` = the topic's fanout set before/after as reported by the implementation,
-`rcpt` = the peers the message was sent to. -/
-def specPublish (meshN : Nat) (c pre post rcpt : List Nat) : Option String :=
+`pre`/`post` = the topic's fanout set before/after as reported by the implementation — whatever the
+send queues looked like and whatever `publish` returned (`Ok`, `AllQueuesFull`, `NoPeersSubscribedToTopic`);
+`rcpt` = the peers the harness is emptying that received the message, `held` = the peers whose queue
+the harness is not emptying (their queue may be full), `cap` = the queue capacity. -/
+def specPublish (meshN cap : Nat) (c pre post rcpt held : List Nat) : Option String :=
   let keep := pre.filter (c.contains ·)
-  if !subset keep post then some "fanout_dropped"
+  if !subset pre post then some "fanout_dropped"
   else if !subset post (pre ++ c) then some "fanout_foreign"
-  else if !subset keep rcpt then some "rcpt_missing"
+  else if decide (cap > 0) && !subset (keep.filter (fun p => !held.contains p)) rcpt then some "rcpt_missing"
   else if decide (meshN ≤ keep.length) && !subset post pre then some "fanout_grew"
   else none
 
